@@ -148,11 +148,11 @@ func c15Pair(t *rapid.T, ev *evProp) {
 	case "otherG":
 		mG = g.Point().Add(e.G, e.G)
 	case "proof-bitflip":
-		pos := rapid.IntRange(0, len(prf)*8-1).Draw(t, "bit")
+		pos := uniformInt(t, 0, len(prf)*8-1, "bit")
 		mprf = append([]byte(nil), prf...)
 		mprf[pos/8] ^= 1 << uint(pos%8)
 	case "proof-truncate":
-		mprf = prf[:rapid.IntRange(0, len(prf)-1).Draw(t, "len")]
+		mprf = prf[:uniformInt(t, 0, len(prf)-1, "len")]
 	case "other-input":
 		mX = append([]kyber.Point(nil), e.X...)
 		mX[i] = g.Point().Add(e.X[i], e.G)
@@ -176,7 +176,7 @@ func c15Pair(t *rapid.T, ev *evProp) {
 			}
 			applies = !same
 		} else {
-			cut := rapid.IntRange(1, len(prf)-1).Draw(t, "cut")
+			cut := uniformInt(t, 1, len(prf)-1, "cut")
 			if len(prf2) != len(prf) {
 				applies = false
 				break
@@ -415,7 +415,7 @@ func c15Others(t *rapid.T, ev *evProp) {
 		case "duplicate":
 			mx[1], my[1] = xb[0], yb[0]
 		case "bitflip":
-			pos := rapid.IntRange(0, len(prf)*8-1).Draw(t, "bit")
+			pos := uniformInt(t, 0, len(prf)*8-1, "bit")
 			mp = append([]byte(nil), prf...)
 			mp[pos/8] ^= 1 << uint(pos%8)
 		case "tear-pair":
